@@ -4,6 +4,8 @@ pub mod engine;
 pub mod frontend;
 pub mod logging;
 pub mod shared;
+#[cfg(sneldb_verif)]
+pub mod verif_hooks;
 
 #[cfg(test)]
 #[path = "../tests/helpers/mod.rs"]
